@@ -220,6 +220,7 @@ PROPS = {
             "design_ref": "DESIGN.md §5 C12",
         },
         "lean_props": ["C12"],
+        "facts": ["ShapeFacts"],
         "streams": [{"name": "repro", "corpus": True, "model": False}],
     },
     "C13": {
@@ -275,6 +276,7 @@ PROPS = {
             "design_ref": "DESIGN.md §5 C15",
         },
         "lean_props": ["C15"],
+        "facts": ["ShapeFacts"],
         "streams": [{"name": "budget", "corpus": True}],
     },
     "C16": {
@@ -332,7 +334,7 @@ PROPS = {
             "design_ref": "DESIGN.md §5 C18",
         },
         "lean_props": ["C18", "C07", "EngineThms"],
-        "streams": [HIST],
+        "streams": [HIST, HISTUC],
     },
     "C19": {
         "claim": {
@@ -348,6 +350,7 @@ PROPS = {
             "design_ref": "DESIGN.md §5 C19",
         },
         "lean_props": ["C19", "EngineThms"],
+        "facts": ["ShapeFacts"],
         "streams": [HISTUC],
     },
     "C20": {
@@ -367,7 +370,7 @@ PROPS = {
             "design_ref": "DESIGN.md §5 C20",
         },
         "lean_props": ["C20", "C08"],
-        "streams": [{"name": "fmt", "corpus": True}],
+        "streams": [{"name": "fmt", "corpus": True}, HIST, HISTUC],
     },
 }
 
